@@ -210,8 +210,8 @@ CHECKS = {
              "compares equal; compile_reset: compile() on an object in any state leaves exactly the object state and exception of a freshly constructed object (all result attributes "
              "incl. macro_resolution_order, constructor state untouched). On every run the recorded real histories (quick: ~10^4 sections) must agree with the machine and every recorded call must be Isolated or follow a Tidy "
              "history - so the memo table cannot make a result depend on the history; all other process-wide state is covered by the exploration only: quick 100 histories x <= 6 calls, "
-             "thorough 5000 x <= 20, with failing inputs, abandoned decompilations, repeated inputs, reused compiler objects, gc and allocation churn, the decompile CLI helpers, fresh "
-             "processes with other hash seeds.",
+             "thorough 5000 x <= 20, with failing inputs, abandoned decompilations, repeated inputs, reused compiler objects, gc and allocation churn, the decompile CLI helpers, every reference "
+             "call repeated in fresh processes under other hash seeds (1, random; more when the inventory flags set iteration) with identical results required.",
         note="K3: the machine is an abstraction of the locking/clearing protocol, not a model of the decompiler; the graph search `_impl` is a parameter. Trusted: Lean 4.33 kernel (axioms "
              "audited per run), the instrumentation in harness/impl_cache.py (monkeypatches; completeness of the mutation hooks is cross-checked by graph fingerprints at every query), "
              "the driver's JSON glue. NOT modellable and covered by exploration only: which ids CPython recycles (allocator state; id reuse is provoked, and observed in every run, but not "
